@@ -29,6 +29,17 @@ Fixpoint after_p (en : env) (props : list string) (pc : Z) (p : prog) (m : mstat
     let m2 := add_stmt (with_stack m1 (m_stack m)) pj (Jz pj (reify_e en pc c) (jp + 3)) in
     let m3 := add_stmt (after_p en props (pj + 3) a m2) jp (Jump jp je) in
     after_p en props je r (after_p en props (jp + 3) eb m3)
+  | PWhile c a r =>
+    let pj := pc + zlen (compile_e c) in
+    let pe := pj + 3 + zlen (compile_p a) in
+    let m1 := after_e en pc c m in
+    let m2 := add_stmt (with_stack m1 (m_stack m)) pj (Jz pj (reify_e en pc c) (pe + 2)) in
+    let m3 := after_p en props (pj + 3) a m2 in
+    let m4 := Build_mstate (m_stack m3)
+                (set_stmts (m_fn m3) (f_stmts (m_fn m) ++
+                   [loop_stmt pc pe (true_at pc) (Stmt pj (Jz pj (reify_e en pc c) (pe + 2)) :: flats (items en props (pj + 3) a))]))
+                (m_ctx m3) in
+    after_p en props (pe + 2) r m4
   end.
 
 Lemma agrees_p_jz en props pc c m pj x :
@@ -42,7 +53,7 @@ Lemma after_p_facts en props : forall p pc m, agrees_p en props m ->
   agrees_p en props (after_p en props pc p m) /\ m_stack (after_p en props pc p m) = m_stack m /\
   f_stmts (m_fn (after_p en props pc p m)) = f_stmts (m_fn m) ++ flats (items en props pc p).
 Proof.
-  induction p as [|s r IH|c a IHa r IHr|c a IHa eb IHe r IHr]; intros pc m Hag.
+  induction p as [|s r IH|c a IHa r IHr|c a IHa eb IHe r IHr|c a IHa r IHr]; intros pc m Hag.
   - cbn [after_p items flats]. rewrite app_nil_r. auto.
   - cbn [after_p items flats flat_i].
     destruct (IH (pc + zlen (compile_s s)) (after_s en props pc s m) (agrees_after_s _ _ _ _ _ Hag)) as (H1 & H2 & H3).
@@ -69,6 +80,19 @@ Proof.
     rewrite R3, E3. subst m3. cbn [add_stmt m_fn f_stmts set_stmts]. rewrite A3. subst m2.
     unfold add_stmt, with_stack, after_e, push, with_globals. cbn [m_fn f_stmts set_stmts set_globals m_stack].
     cbn [app]. rewrite <- !app_assoc. cbn [app]. reflexivity.
+  - cbn [after_p items flats]. rewrite flat_while.
+    set (pj := pc + zlen (compile_e c)). set (pe := pj + 3 + zlen (compile_p a)).
+    set (m2 := add_stmt (with_stack (after_e en pc c m) (m_stack m)) pj (Jz pj (reify_e en pc c) (pe + 2))).
+    assert (Hag2 : agrees_p en props m2) by (apply agrees_p_jz; exact Hag).
+    destruct (IHa (pj + 3) m2 Hag2) as (A1 & A2 & A3).
+    set (m3 := after_p en props (pj + 3) a m2) in *.
+    set (m4 := Build_mstate (m_stack m3) (set_stmts (m_fn m3) (f_stmts (m_fn m) ++
+                 [loop_stmt pc pe (true_at pc) (Stmt pj (Jz pj (reify_e en pc c) (pe + 2)) :: flats (items en props (pj + 3) a))])) (m_ctx m3)).
+    assert (Hag4 : agrees_p en props m4).
+    { subst m4. destruct A1 as [Ha Hb]. split; [|exact Hb]. unfold agrees in *. destruct m3 as [st3 fn3 cx3]. cbn in *. exact Ha. }
+    destruct (IHr (pe + 2) m4 Hag4) as (R1 & R2 & R3).
+    split; [exact R1|]. split; [rewrite R2; subst m4; cbn [m_stack]; rewrite A2; reflexivity|].
+    rewrite R3. subst m4. cbn [m_fn f_stmts set_stmts]. rewrite <- app_assoc. reflexivity.
 Qed.
 
 Lemma u8_jz_bytes off : 0 <= off < 65536 -> u8 (b (off / 256)) * 256 + u8 (b off) = off.
@@ -77,13 +101,118 @@ Proof.
   pose proof (Z.div_mod off 256 ltac:(lia)). lia.
 Qed.
 
+(* ---- the items of a well-formed program are well positioned ---- *)
+Lemma reify_s_plain en props pc s : plain_stmt (reify_s en props pc s) = true.
+Proof. destruct s; cbn [reify_s plain_stmt]; try reflexivity; destruct (reify_args en pc args); reflexivity. Qed.
+
+Lemma arglist_len_nonneg n : 0 <= arglist_len n.
+Proof. unfold arglist_len. destruct (Z.of_nat n <? 256); lia. Qed.
+
+Lemma reify_s_pos en props pc s : pc <= pos_of (reify_s en props pc s) < pc + zlen (compile_s s).
+Proof.
+  destruct s as [t e|f args|f args]; cbn [reify_s compile_s].
+  - cbn [pos_of]. rewrite zlen_app. assert (zlen (compile_store t) = 2) by (destruct t; reflexivity).
+    pose proof (zlen_nonneg (compile_e e)). lia.
+  - pose proof (reify_args_pc en args pc) as Hpc. destruct (reify_args en pc args) as [ns pa]. cbn [snd] in Hpc. subst pa.
+    cbn [pos_of]. rewrite !zlen_app, arglist_len_zlen_stmt. pose proof (zlen_nonneg (flat_map compile_e args)).
+    pose proof (arglist_len_nonneg (List.length args)). change (zlen [b 87; b (Z.of_nat f)]) with 2. lia.
+  - pose proof (reify_args_pc en args pc) as Hpc. destruct (reify_args en pc args) as [ns pa]. cbn [snd] in Hpc. subst pa.
+    cbn [pos_of]. rewrite !zlen_app, arglist_len_zlen_stmt. pose proof (zlen_nonneg (flat_map compile_e args)).
+    pose proof (arglist_len_nonneg (List.length args)). change (zlen [b 86; b (Z.of_nat f)]) with 2. lia.
+Qed.
+
+Lemma items_nonempty en props pc p : p <> PNil -> items en props pc p <> [].
+Proof. destruct p; [congruence | discriminate | discriminate | discriminate | discriminate]. Qed.
+
+Lemma items_wp en props : forall p pc, wf_p en p -> wp pc (pc + zlen (compile_p p)) (items en props pc p).
+Proof.
+  induction p as [|s r IH|c a IHa r IHr|c a IHa eb IHe r IHr|c a IHa r IHr]; intros pc Hwf.
+  - cbn [items compile_p]. rewrite zlen_nil. constructor. lia.
+  - destruct Hwf as [Hs Hr]. cbn [items compile_p]. rewrite zlen_app.
+    pose proof (reify_s_pos en props pc s) as Hpos.
+    constructor; [apply reify_s_plain | lia |].
+    apply (wp_lower (pc + zlen (compile_s s))); [|lia].
+    replace (pc + (zlen (compile_s s) + zlen (compile_p r))) with (pc + zlen (compile_s s) + zlen (compile_p r)) by lia.
+    apply IH. exact Hr.
+  - destruct Hwf as (Hwc & Hne & Hsz & Hwa & Hwr). cbn [items compile_p]. rewrite !zlen_app.
+    change (zlen (jz (3 + zlen (compile_p a)))) with 3.
+    pose proof (zlen_nonneg (compile_e c)). pose proof (zlen_nonneg (compile_p a)).
+    set (pj := pc + zlen (compile_e c)). set (ea := pj + 3 + zlen (compile_p a)).
+    constructor; [subst pj; lia | apply items_nonempty; exact Hne | |].
+    + apply (wp_lower (pj + 3)); [|lia]. apply IHa. exact Hwa.
+    + replace (pc + (zlen (compile_e c) + (3 + (zlen (compile_p a) + zlen (compile_p r))))) with (ea + zlen (compile_p r)) by (subst ea pj; lia).
+      apply IHr. exact Hwr.
+  - destruct Hwf as (Hwc & Hne & Hne' & Hsz & Hsz' & Hwa & Hwe & Hwr). cbn [items compile_p]. rewrite !zlen_app.
+    change (zlen (jz (3 + zlen (compile_p a) + 3))) with 3. change (zlen (jmp (3 + zlen (compile_p eb)))) with 3.
+    pose proof (zlen_nonneg (compile_e c)). pose proof (zlen_nonneg (compile_p a)). pose proof (zlen_nonneg (compile_p eb)).
+    set (pj := pc + zlen (compile_e c)). set (jp := pj + 3 + zlen (compile_p a)). set (je := jp + 3 + zlen (compile_p eb)).
+    apply wp_ife; [subst pj; lia | apply items_nonempty; exact Hne | apply items_nonempty; exact Hne' | | lia | |].
+    + apply (wp_lower (pj + 3)); [|lia]. apply IHa. exact Hwa.
+    + apply IHe. exact Hwe.
+    + replace (pc + (zlen (compile_e c) + (3 + (zlen (compile_p a) + (3 + (zlen (compile_p eb) + zlen (compile_p r)))))))
+        with (je + zlen (compile_p r)) by (subst je jp pj; lia).
+      apply IHr. exact Hwr.
+  - destruct Hwf as (Hwc & Hcond & Hsz & Hwa & Hwr). cbn [items compile_p]. rewrite !zlen_app.
+    change (zlen (jz (3 + zlen (compile_p a) + 2))) with 3. rewrite zlen_cons, zlen_cons, zlen_nil.
+    pose proof (zlen_nonneg (compile_e c)). pose proof (zlen_nonneg (compile_p a)).
+    set (pj := pc + zlen (compile_e c)). set (pe := pj + 3 + zlen (compile_p a)).
+    apply wp_while; [lia | subst pj; lia | apply Hcond | |].
+    + apply (wp_lower (pj + 3)); [|lia]. apply IHa. exact Hwa.
+    + apply (wp_lower (pe + 2)); [|lia].
+      replace (pc + (zlen (compile_e c) + (3 + (zlen (compile_p a) + (1 + (1 + 0) + zlen (compile_p r))))))
+        with (pe + 2 + zlen (compile_p r)) by (subst pe pj; lia).
+      apply IHr. exact Hwr.
+Qed.
+
+(* ---- the statements collected so far lie before the current address ---- *)
+Definition sinv (pc : Z) (m : mstate) : Prop := Forall (fun st => st_ok st = true /\ pos_of st < pc) (f_stmts (m_fn m)).
+
+Lemma sinv_after en props p pc m : wf_p en p -> agrees_p en props m -> sinv pc m -> sinv (pc + zlen (compile_p p)) (after_p en props pc p m).
+Proof.
+  intros Hwf Hag Hs. unfold sinv. destruct (after_p_facts en props p pc m Hag) as (_ & _ & E). rewrite E.
+  pose proof (zlen_nonneg (compile_p p)). apply Forall_app. split.
+  - eapply Forall_impl; [|exact Hs]. intros x [H1 H2]. split; [exact H1 | lia].
+  - eapply Forall_impl; [|exact (flats_within _ _ _ (items_wp en props p pc Hwf))]. intros x (H1 & H2 & _). split; [exact H1 | lia].
+Qed.
+Lemma sinv_add_jz en pc c m pj cond tgt : sinv pc m -> pc <= pj ->
+  sinv (pj + 3) (add_stmt (with_stack (after_e en pc c m) (m_stack m)) pj (Jz pj cond tgt)).
+Proof.
+  intros Hs Hp. unfold sinv, add_stmt, with_stack, after_e, push, with_globals. cbn [m_fn f_stmts set_stmts set_globals].
+  apply Forall_app. split.
+  - eapply Forall_impl; [|exact Hs]. intros x [H1 H2]. split; [exact H1 | lia].
+  - constructor; [split; [reflexivity | cbn [pos_of]; lia] | constructor].
+Qed.
+Lemma sinv_add_jump m jp je : sinv jp m -> sinv (jp + 3) (add_stmt m jp (Jump jp je)).
+Proof.
+  intros Hs. unfold sinv, add_stmt. cbn [m_fn f_stmts set_stmts]. apply Forall_app. split.
+  - eapply Forall_impl; [|exact Hs]. intros x [H1 H2]. split; [exact H1 | lia].
+  - constructor; [split; [reflexivity | cbn [pos_of]; lia] | constructor].
+Qed.
+Lemma sinv_after_s en props pc s m : sinv pc m -> sinv (pc + zlen (compile_s s)) (after_s en props pc s m).
+Proof.
+  intros Hs. unfold sinv, after_s. cbn [m_fn f_stmts]. pose proof (reify_s_pos en props pc s). apply Forall_app. split.
+  - eapply Forall_impl; [|exact Hs]. intros x [H1 H2]. split; [exact H1 | lia].
+  - constructor; [split; [apply plain_st_ok; apply reify_s_plain | lia] | constructor].
+Qed.
+
+Lemma filter_back pc (S0 B : list node) : Forall (fun st => pos_of st < pc) S0 -> Forall (fun st => pc <= pos_of st) B ->
+  filter (fun st => pc <=? pos_of st) (S0 ++ B) = B.
+Proof.
+  intros H0 HB. rewrite filter_app.
+  assert (E0 : filter (fun st => pc <=? pos_of st) S0 = []).
+  { induction H0 as [|x l Hx _ IH]; [reflexivity|]. cbn [filter]. replace (pc <=? pos_of x) with false by (symmetry; apply Z.leb_gt; lia). exact IH. }
+  assert (EB : filter (fun st => pc <=? pos_of st) B = B).
+  { induction HB as [|x l Hx _ IH]; [reflexivity|]. cbn [filter]. replace (pc <=? pos_of x) with true by (symmetry; apply Z.leb_le; lia). rewrite IH. reflexivity. }
+  rewrite E0, EB. reflexivity.
+Qed.
+
 Theorem exec_p en props : forall p, wf_p en p ->
   forall d off len a fuel r m,
-    agrees_p en props m -> m_stack m = [] -> code_at d a (compile_p p) -> off <= a -> a + zlen (compile_p p) <= off + len ->
+    agrees_p en props m -> m_stack m = [] -> sinv a m -> code_at d a (compile_p p) -> off <= a -> a + zlen (compile_p p) <= off + len ->
     exists r', run_ops (ninstr_p p + fuel) d off len a r m
                = run_ops fuel d off len (a + zlen (compile_p p)) r' (after_p en props a p m).
 Proof.
-  induction p as [|s rest IH|c body IHa rest IHr|c body IHa ebody IHe rest IHr]; intros Hwf d off len a fuel r m Hag Hst Hc Hoff Hlen.
+  induction p as [|s rest IH|c body IHa rest IHr|c body IHa ebody IHe rest IHr|c body IHa rest IHr]; intros Hwf d off len a fuel r m Hag Hst Hsi Hc Hoff Hlen.
   - exists r. cbn [ninstr_p compile_p after_p Nat.add]. rewrite zlen_nil, Z.add_0_r. reflexivity.
   - destruct Hwf as [Hs Hr]. cbn [compile_p ninstr_p after_p] in *. rewrite zlen_app in *.
     apply code_at_app in Hc. destruct Hc as [Hcs Hcr].
@@ -91,7 +220,7 @@ Proof.
     replace (ninstr_s s + ninstr_p rest + fuel)%nat with (ninstr_s s + (ninstr_p rest + fuel))%nat by lia.
     destruct (exec_s en props s Hs d off len a (ninstr_p rest + fuel)%nat r m Hag Hst Hcs ltac:(lia) ltac:(lia)) as [r1 E1]. rewrite E1.
     destruct (IH Hr d off len (a + zlen (compile_s s)) fuel r1 (after_s en props a s m) (agrees_after_s _ _ _ _ _ Hag)
-                 (eq_trans (after_s_stack _ _ _ _ _) Hst) Hcr ltac:(lia) ltac:(lia)) as [r2 E2].
+                 (eq_trans (after_s_stack _ _ _ _ _) Hst) (sinv_after_s en props a s m Hsi) Hcr ltac:(lia) ltac:(lia)) as [r2 E2].
     rewrite E2. exists r2. f_equal. lia.
   - destruct Hwf as (Hwc & Hne & Hsz & Hwa & Hwr). cbn [compile_p ninstr_p after_p] in *.
     rewrite !zlen_app in *. change (zlen (jz (3 + zlen (compile_p body)))) with 3 in *.
@@ -116,11 +245,13 @@ Proof.
     destruct Hs as [r2 Hs]. cbn [Nat.add]. erewrite run_ops_step; [| subst pj; lia | exact Hs].
     assert (Hag2 : agrees_p en props m2) by (apply agrees_p_jz; split; assumption).
     assert (Hst2 : m_stack m2 = []) by (subst m2; cbn; exact Hst).
-    destruct (IHa Hwa d off len (pj + 3) (ninstr_p rest + fuel)%nat r2 m2 Hag2 Hst2) as [r3 E3];
+    assert (Hsi2 : sinv (pj + 3) m2) by (apply sinv_add_jz; [exact Hsi | subst pj; lia]).
+    destruct (IHa Hwa d off len (pj + 3) (ninstr_p rest + fuel)%nat r2 m2 Hag2 Hst2 Hsi2) as [r3 E3];
       [replace (pj + 3) with (a + zlen (compile_e c) + 3) by (subst pj; lia); exact Hca | subst pj; lia | subst pj; lia |].
     rewrite E3.
     destruct (after_p_facts en props body (pj + 3) m2 Hag2) as (A1 & A2 & _).
-    destruct (IHr Hwr d off len (pj + 3 + zlen (compile_p body)) fuel r3 (after_p en props (pj + 3) body m2) A1 (eq_trans A2 Hst2)) as [r4 E4];
+    destruct (IHr Hwr d off len (pj + 3 + zlen (compile_p body)) fuel r3 (after_p en props (pj + 3) body m2) A1 (eq_trans A2 Hst2)
+                  (sinv_after en props body (pj + 3) m2 Hwa Hag2 Hsi2)) as [r4 E4];
       [replace (pj + 3 + zlen (compile_p body)) with (a + zlen (compile_e c) + 3 + zlen (compile_p body)) by (subst pj; lia); exact Hcr
       | subst pj; lia | subst pj; lia |].
     rewrite E4. exists r4. f_equal. subst pj. lia.
@@ -152,7 +283,8 @@ Proof.
     destruct Hs as [r2 Hs]. rewrite Nat.add_1_l. erewrite run_ops_step; [| subst pj; lia | exact Hs].
     assert (Hag2 : agrees_p en props m2) by (apply agrees_p_jz; split; assumption).
     assert (Hst2 : m_stack m2 = []) by (subst m2; cbn; exact Hst).
-    destruct (IHa Hwa d off len (pj + 3) (1 + (ninstr_p ebody + (ninstr_p rest + fuel)))%nat r2 m2 Hag2 Hst2) as [r3 E3];
+    assert (Hsi2 : sinv (pj + 3) m2) by (apply sinv_add_jz; [exact Hsi | subst pj; lia]).
+    destruct (IHa Hwa d off len (pj + 3) (1 + (ninstr_p ebody + (ninstr_p rest + fuel)))%nat r2 m2 Hag2 Hst2 Hsi2) as [r3 E3];
       [replace (pj + 3) with (a + zlen (compile_e c) + 3) by (subst pj; lia); exact Hca | subst pj; lia | subst pj; lia |].
     rewrite E3. fold jp.
     destruct (after_p_facts en props body (pj + 3) m2 Hag2) as (A1 & A2 & _).
@@ -168,68 +300,81 @@ Proof.
     destruct Hs2 as [r4 Hs2]. rewrite Nat.add_1_l. erewrite run_ops_step; [| subst jp pj; lia | exact Hs2].
     assert (Hag3 : agrees_p en props m3) by (apply agrees_add_stmt; exact A1).
     assert (Hst3 : m_stack m3 = []) by (subst m3; cbn [add_stmt m_stack]; rewrite A2; exact Hst2).
-    destruct (IHe Hwe d off len (jp + 3) (ninstr_p rest + fuel)%nat r4 m3 Hag3 Hst3) as [r5 E5];
+    assert (Hsi3 : sinv (jp + 3) m3) by (subst m3; apply sinv_add_jump; subst ma jp; apply (sinv_after en props body (pj + 3) m2 Hwa Hag2 Hsi2)).
+    destruct (IHe Hwe d off len (jp + 3) (ninstr_p rest + fuel)%nat r4 m3 Hag3 Hst3 Hsi3) as [r5 E5];
       [replace (jp + 3) with (a + zlen (compile_e c) + 3 + zlen (compile_p body) + 3) by (subst jp pj; lia); exact Hce
       | subst jp pj; lia | subst jp pj; lia |].
     rewrite E5.
     destruct (after_p_facts en props ebody (jp + 3) m3 Hag3) as (B1 & B2 & _).
-    destruct (IHr Hwr d off len (jp + 3 + zlen (compile_p ebody)) fuel r5 (after_p en props (jp + 3) ebody m3) B1 (eq_trans B2 Hst3)) as [r6 E6];
+    destruct (IHr Hwr d off len (jp + 3 + zlen (compile_p ebody)) fuel r5 (after_p en props (jp + 3) ebody m3) B1 (eq_trans B2 Hst3)
+                  (sinv_after en props ebody (jp + 3) m3 Hwe Hag3 Hsi3)) as [r6 E6];
       [replace (jp + 3 + zlen (compile_p ebody)) with (a + zlen (compile_e c) + 3 + zlen (compile_p body) + 3 + zlen (compile_p ebody)) by (subst jp pj; lia); exact Hcr
       | subst jp pj; lia | subst jp pj; lia |].
     rewrite E6. exists r6. f_equal. subst jp pj. lia.
-Qed.
-
-(* ---- the items of a well-formed program are well positioned ---- *)
-Lemma reify_s_plain en props pc s : plain_stmt (reify_s en props pc s) = true.
-Proof. destruct s; cbn [reify_s plain_stmt]; try reflexivity; destruct (reify_args en pc args); reflexivity. Qed.
-
-Lemma arglist_len_nonneg n : 0 <= arglist_len n.
-Proof. unfold arglist_len. destruct (Z.of_nat n <? 256); lia. Qed.
-
-Lemma reify_s_pos en props pc s : pc <= pos_of (reify_s en props pc s) < pc + zlen (compile_s s).
-Proof.
-  destruct s as [t e|f args|f args]; cbn [reify_s compile_s].
-  - cbn [pos_of]. rewrite zlen_app. assert (zlen (compile_store t) = 2) by (destruct t; reflexivity).
-    pose proof (zlen_nonneg (compile_e e)). lia.
-  - pose proof (reify_args_pc en args pc) as Hpc. destruct (reify_args en pc args) as [ns pa]. cbn [snd] in Hpc. subst pa.
-    cbn [pos_of]. rewrite !zlen_app, arglist_len_zlen_stmt. pose proof (zlen_nonneg (flat_map compile_e args)).
-    pose proof (arglist_len_nonneg (List.length args)). change (zlen [b 87; b (Z.of_nat f)]) with 2. lia.
-  - pose proof (reify_args_pc en args pc) as Hpc. destruct (reify_args en pc args) as [ns pa]. cbn [snd] in Hpc. subst pa.
-    cbn [pos_of]. rewrite !zlen_app, arglist_len_zlen_stmt. pose proof (zlen_nonneg (flat_map compile_e args)).
-    pose proof (arglist_len_nonneg (List.length args)). change (zlen [b 86; b (Z.of_nat f)]) with 2. lia.
-Qed.
-
-Lemma items_nonempty en props pc p : p <> PNil -> items en props pc p <> [].
-Proof. destruct p; [congruence | discriminate | discriminate | discriminate]. Qed.
-
-Lemma items_wp en props : forall p pc, wf_p en p -> wp pc (pc + zlen (compile_p p)) (items en props pc p).
-Proof.
-  induction p as [|s r IH|c a IHa r IHr|c a IHa eb IHe r IHr]; intros pc Hwf.
-  - cbn [items compile_p]. rewrite zlen_nil. constructor. lia.
-  - destruct Hwf as [Hs Hr]. cbn [items compile_p]. rewrite zlen_app.
-    pose proof (reify_s_pos en props pc s) as Hpos.
-    constructor; [apply reify_s_plain | lia |].
-    apply (wp_lower (pc + zlen (compile_s s))); [|lia].
-    replace (pc + (zlen (compile_s s) + zlen (compile_p r))) with (pc + zlen (compile_s s) + zlen (compile_p r)) by lia.
-    apply IH. exact Hr.
-  - destruct Hwf as (Hwc & Hne & Hsz & Hwa & Hwr). cbn [items compile_p]. rewrite !zlen_app.
-    change (zlen (jz (3 + zlen (compile_p a)))) with 3.
-    pose proof (zlen_nonneg (compile_e c)). pose proof (zlen_nonneg (compile_p a)).
-    set (pj := pc + zlen (compile_e c)). set (ea := pj + 3 + zlen (compile_p a)).
-    constructor; [subst pj; lia | apply items_nonempty; exact Hne | |].
-    + apply (wp_lower (pj + 3)); [|lia]. apply IHa. exact Hwa.
-    + replace (pc + (zlen (compile_e c) + (3 + (zlen (compile_p a) + zlen (compile_p r))))) with (ea + zlen (compile_p r)) by (subst ea pj; lia).
-      apply IHr. exact Hwr.
-  - destruct Hwf as (Hwc & Hne & Hne' & Hsz & Hsz' & Hwa & Hwe & Hwr). cbn [items compile_p]. rewrite !zlen_app.
-    change (zlen (jz (3 + zlen (compile_p a) + 3))) with 3. change (zlen (jmp (3 + zlen (compile_p eb)))) with 3.
-    pose proof (zlen_nonneg (compile_e c)). pose proof (zlen_nonneg (compile_p a)). pose proof (zlen_nonneg (compile_p eb)).
-    set (pj := pc + zlen (compile_e c)). set (jp := pj + 3 + zlen (compile_p a)). set (je := jp + 3 + zlen (compile_p eb)).
-    apply wp_ife; [subst pj; lia | apply items_nonempty; exact Hne | apply items_nonempty; exact Hne' | | lia | |].
-    + apply (wp_lower (pj + 3)); [|lia]. apply IHa. exact Hwa.
-    + apply IHe. exact Hwe.
-    + replace (pc + (zlen (compile_e c) + (3 + (zlen (compile_p a) + (3 + (zlen (compile_p eb) + zlen (compile_p r)))))))
-        with (je + zlen (compile_p r)) by (subst je jp pj; lia).
-      apply IHr. exact Hwr.
+  - (* repeat while *)
+    destruct Hwf as (Hwc & Hcond & Hsz & Hwa & Hwr). cbn [compile_p ninstr_p after_p] in *.
+    rewrite !zlen_app in *. change (zlen (jz (3 + zlen (compile_p body) + 2))) with 3 in *.
+    rewrite zlen_cons, zlen_cons, zlen_nil in *.
+    apply code_at_app in Hc. destruct Hc as [Hcc Hc]. apply code_at_app in Hc. destruct Hc as [Hcj Hc].
+    apply code_at_app in Hc. destruct Hc as [Hca Hc]. apply code_at_app in Hc. destruct Hc as [Hcb Hcr].
+    change (zlen (jz (3 + zlen (compile_p body) + 2))) with 3 in *. rewrite zlen_cons, zlen_cons, zlen_nil in Hcr.
+    pose proof (zlen_nonneg (compile_e c)). pose proof (zlen_nonneg (compile_p body)). pose proof (zlen_nonneg (compile_p rest)).
+    set (pj := a + zlen (compile_e c)) in *. set (pe := pj + 3 + zlen (compile_p body)).
+    replace (ninstr c + (1 + (ninstr_p body + (1 + ninstr_p rest))) + fuel)%nat
+      with (ninstr c + (1 + (ninstr_p body + (1 + (ninstr_p rest + fuel)))))%nat by lia.
+    destruct Hag as [Hag0 Hpr].
+    destruct (exec_e en c Hwc d off len a (1 + (ninstr_p body + (1 + (ninstr_p rest + fuel))))%nat r m Hag0 Hcc ltac:(lia) ltac:(lia)) as [r1 E1].
+    rewrite E1. fold pj.
+    set (m1 := after_e en a c m).
+    set (m2 := add_stmt (with_stack m1 (m_stack m)) pj (Jz pj (reify_e en a c) (pe + 2))).
+    assert (Hs : exists r', step d pj r1 m1 = Ok (pj + 3, r', m2)).
+    { apply (step_3 d pj r1 m1 (b 149) (b ((3 + zlen (compile_p body) + 2) / 256)) (b (3 + zlen (compile_p body) + 2))
+                    "ConditionalJumpOpcode" "" OCondJump m2 Hcj); [vm_compute; reflexivity | reflexivity |].
+      cbn [process]. unfold pop. subst m1. rewrite after_e_stack. cbn [bind]. f_equal. subst m2.
+      rewrite u8_jz_bytes by lia. unfold add_stmt, with_stack. cbn [m_stack m_fn m_ctx].
+      replace (pj + (3 + zlen (compile_p body) + 2)) with (pe + 2) by (subst pe; lia).
+      destruct m as [st fn cx]. reflexivity. }
+    destruct Hs as [r2 Hs]. rewrite Nat.add_1_l. erewrite run_ops_step; [| subst pj; lia | exact Hs].
+    assert (Hag2 : agrees_p en props m2) by (apply agrees_p_jz; split; assumption).
+    assert (Hst2 : m_stack m2 = []) by (subst m2; cbn; exact Hst).
+    assert (Hsi2 : sinv (pj + 3) m2) by (apply sinv_add_jz; [exact Hsi | subst pj; lia]).
+    destruct (IHa Hwa d off len (pj + 3) (1 + (ninstr_p rest + fuel))%nat r2 m2 Hag2 Hst2 Hsi2) as [r3 E3];
+      [replace (pj + 3) with (a + zlen (compile_e c) + 3) by (subst pj; lia); exact Hca | subst pj; lia | subst pj; lia |].
+    rewrite E3. fold pe.
+    destruct (after_p_facts en props body (pj + 3) m2 Hag2) as (A1 & A2 & A3).
+    set (m3 := after_p en props (pj + 3) body m2) in *.
+    set (L := loop_stmt a pe (true_at a) (Stmt pj (Jz pj (reify_e en a c) (pe + 2)) :: flats (items en props (pj + 3) body))).
+    set (m4 := Build_mstate (m_stack m3) (set_stmts (m_fn m3) (f_stmts (m_fn m) ++ [L])) (m_ctx m3)).
+    (* the backward jump gathers the statements of the loop *)
+    assert (Hs2 : exists r', step d pe r3 m3 = Ok (pe + 2, r', m4)).
+    { apply (step_2 d pe r3 m3 (b 84) (b (zlen (compile_e c) + 3 + zlen (compile_p body))) "JumpOpcode" "" OJump m4);
+        [replace pe with (a + zlen (compile_e c) + 3 + zlen (compile_p body)) by (subst pe pj; lia); exact Hcb
+        | vm_compute; reflexivity | reflexivity |].
+      intros p2. cbn [process]. rewrite u8_b by lia.
+      replace (pe - (zlen (compile_e c) + 3 + zlen (compile_p body))) with a by (subst pe pj; lia).
+      assert (Est : f_stmts (m_fn m3) = f_stmts (m_fn m) ++ (Stmt pj (Jz pj (reify_e en a c) (pe + 2)) :: flats (items en props (pj + 3) body))).
+      { rewrite A3. subst m2. unfold add_stmt, with_stack, after_e, push, with_globals. cbn [m_fn f_stmts set_stmts set_globals].
+        rewrite <- app_assoc. reflexivity. }
+      rewrite Est.
+      assert (HB : Forall (fun st => st_ok st = true /\ a <= pos_of st) (Stmt pj (Jz pj (reify_e en a c) (pe + 2)) :: flats (items en props (pj + 3) body))).
+      { constructor; [split; [reflexivity | cbn [pos_of]; subst pj; lia]|].
+        eapply Forall_impl; [|exact (flats_within _ _ _ (items_wp en props body (pj + 3) Hwa))]. intros x (Hx1 & Hx2 & _). split; [exact Hx1 | subst pj; lia]. }
+      rewrite (filter_back a (f_stmts (m_fn m)) _ ltac:(eapply Forall_impl; [|exact Hsi]; intros x [_ Hx]; exact Hx)
+                           ltac:(eapply Forall_impl; [|exact HB]; intros x [_ Hx]; exact Hx)).
+      pose proof (remove_all_block (f_stmts (m_fn m)) (Stmt pj (Jz pj (reify_e en a c) (pe + 2)) :: flats (items en props (pj + 3) body)) [] a Hsi HB) as Er.
+      rewrite !app_nil_r in Er. rewrite Er. cbn [bind]. reflexivity. }
+    destruct Hs2 as [r4 Hs2]. rewrite Nat.add_1_l. erewrite run_ops_step; [| subst pe pj; lia | exact Hs2].
+    assert (Hag4 : agrees_p en props m4).
+    { subst m4. destruct A1 as [Ha Hb]. split; [|exact Hb]. unfold agrees in *. destruct m3 as [st3 fn3 cx3]. cbn in *. exact Ha. }
+    assert (Hst4 : m_stack m4 = []) by (subst m4; cbn [m_stack]; rewrite A2; exact Hst2).
+    assert (Hsi4 : sinv (pe + 2) m4).
+    { subst m4. unfold sinv. cbn [m_fn f_stmts set_stmts]. apply Forall_app. split.
+      - eapply Forall_impl; [|exact Hsi]. intros x [Hx1 Hx2]. split; [exact Hx1 | subst pe pj; lia].
+      - constructor; [split; [reflexivity | cbn [pos_of L loop_stmt]; lia] | constructor]. }
+    destruct (IHr Hwr d off len (pe + 2) fuel r4 m4 Hag4 Hst4 Hsi4) as [r5 E5];
+      [replace (pe + 2) with (a + zlen (compile_e c) + 3 + zlen (compile_p body) + (1 + (1 + 0))) by (subst pe pj; lia); exact Hcr
+      | subst pe pj; lia | subst pe pj; lia |].
+    rewrite E5. exists r5. f_equal. subst pe pj. lia.
 Qed.
 
 (* ---- a whole handler: any nest of ifs over straight-line statements is rebuilt ---- *)
@@ -245,7 +390,8 @@ Theorem nest_handler en props p d off fuel r m :
 Proof.
   intros Hwf Hag Hst Hnil Hc pexit exit_st. rewrite zlen_app, zlen_cons, zlen_nil in *.
   apply code_at_app in Hc. destruct Hc as [Hcb Hce]. pose proof (zlen_nonneg (compile_p p)).
-  destruct (exec_p en props p Hwf d off (zlen (compile_p p) + (1 + 0)) off (1 + fuel)%nat r m Hag Hst Hcb ltac:(lia) ltac:(lia)) as [r1 E1].
+  assert (Hsi : sinv off m) by (unfold sinv; rewrite Hnil; constructor).
+  destruct (exec_p en props p Hwf d off (zlen (compile_p p) + (1 + 0)) off (1 + fuel)%nat r m Hag Hst Hsi Hcb ltac:(lia) ltac:(lia)) as [r1 E1].
   rewrite E1. set (m1 := after_p en props off p m).
   assert (Hs : step d pexit r1 m1 = Ok (pexit + 1, r1, add_stmt m1 pexit (Call "exit" pexit None true false false))).
   { apply (step_1 d pexit r1 m1 (b 1) "ExitOpcode" "" OExit _ Hce); [vm_compute; reflexivity | reflexivity | intros; reflexivity]. }
@@ -260,7 +406,7 @@ Proof.
   assert (Hwp : wp off (pexit + 1) (items en props off p ++ [IPlain exit_st])).
   { apply (wp_app off pexit); [apply items_wp; exact Hwf|].
     apply wp_plain; [reflexivity | cbn [pos_of exit_st]; lia | apply wp_nil; cbn [pos_of exit_st]; lia]. }
-  pose proof (detect_nest _ _ _ Hwp) as Hd. rewrite flats_app, trees_app in Hd. cbn [flats flat_i trees tree_i app] in Hd.
+  pose proof (detect_nest _ _ _ Hwp) as Hd. rewrite flats_app, fins_app in Hd. cbn [flats flat_i fins fin_i app] in Hd.
   exact Hd.
 Qed.
 Print Assumptions nest_handler.
